@@ -147,7 +147,7 @@ contract(OM + "_push_order_update", props=["C05"], types={"when": "Opt[DT]"},
                         "and event_mirrors(seq_at(evq(self), seq_len(evq(self)) - 1).order, order))"),
              ("not_pushed", "implies(not (ev_enabled(self) and (not_none(when) or not_none(self._ctx.dispatcher._last_dt))), "
                             "implies(ev_enabled(self), seq_len(evq(self)) == old(seq_len(evq(self)))))")],
-         modifies=["content(self._order_updates._obj._queue)"])
+         modifies=["content(self._order_updates._obj._queue)", "self._order_updates._obj.pending"])
 # the pushed OrderInfo equals the order state at the time of the push
 specfun("event_mirrors", ["info", "o"],
         "info.id == o._id and info.is_open == st_open(o) and info.operation == o._operation and info.amount == o._amount "
@@ -323,7 +323,7 @@ contract(OM + "_process_order", props=P + ["C04", "C11"],
                                       "and forall(lambda s=Str: GHOST.ledger[s] == old(GHOST.ledger[s]))")]},
          modifies=ACC3 + ["content(self._holds_by_order)", "content(self._holds_by_order[order._id])", "all(order)", "content(order._balance_updates)",
                           "content(order._fees)", "content(order._fills)", "content(order._loan_ids)", "all(liquidity_strategy)",
-                          "content(self._ctx.loan_mgr._collateral_by_loan)", "content(self._order_updates._obj._queue)", "GHOST.ledger"])
+                          "content(self._ctx.loan_mgr._collateral_by_loan)", "content(self._order_updates._obj._queue)", "self._order_updates._obj.pending", "GHOST.ledger"])
 
 # ---------------------------------------------------------------------------------------------------------------------
 # public operations: add_order, cancel_order, on_bar_event
@@ -363,7 +363,7 @@ contract(OM + "add_order", props=P + ["C10"],
                                           "old(k in om_lm(self)._loans._items) and old(om_lm(self)._loans._items[k]._is_open)))"),
                            ("existing_loans", "old_loans_kept(self)")]},
          modifies=ACC3 + LM_MOD + ["content(self._orders._items)", "content(self._orders._open_items)", "self._orders.pos",
-                                   "content(self._holds_by_order)", "content(order._loan_ids)", "content(self._order_updates._obj._queue)"])
+                                   "content(self._holds_by_order)", "content(order._loan_ids)", "content(self._order_updates._obj._queue)", "self._order_updates._obj.pending"])
 
 contract(OM + "cancel_order", props=P, types={"order_id": "Id"},
          axioms=[("bound", "ax_hold_bound(self, order_id)"), ("step", "ax_hold_step(self, order_id)")],
@@ -379,7 +379,7 @@ contract(OM + "cancel_order", props=P, types={"order_id": "Id"},
                            ("why", "not (order_id in self._orders._items) or not st_open(self._orders._items[order_id])")]},
          modifies=ACC3 + ["content(self._holds_by_order)", "content(self._holds_by_order[order_id])", "self._orders._items[order_id]._state",
                           "content(self._orders._items[order_id]._loan_ids)", "content(self._ctx.loan_mgr._collateral_by_loan)",
-                          "content(self._order_updates._obj._queue)", "GHOST.ledger"])
+                          "content(self._order_updates._obj._queue)", "self._order_updates._obj.pending", "GHOST.ledger"])
 
 # the liquidity strategy factory the user configured: returns a fresh, well-configured strategy (assumed)
 contract("opaque:liquidity_strategy_factory", trusted=True, returns="LiquidityStrategy",
@@ -398,7 +398,7 @@ BAR_INV = OM_INVS + [
     ("loans_clock", "forall(lambda k=Id: implies(k in om_lm(self)._loans._items, now_of(om_lm(self)) >= om_lm(self)._loans._items[k]._created_at))"),
 ]
 BAR_MOD = ACC3 + ["content(self._holds_by_order)", "every(Order)", "every(LiquidityStrategy)",
-                  "content(self._ctx.loan_mgr._collateral_by_loan)", "content(self._order_updates._obj._queue)", "GHOST.ledger",
+                  "content(self._ctx.loan_mgr._collateral_by_loan)", "content(self._order_updates._obj._queue)", "self._order_updates._obj.pending", "GHOST.ledger",
                   "every(ValueMap)", "self._orders._reindex_counter", "self._orders._open_items"]
 contract(OM + "on_bar_event", props=P + ["C04", "C11", "C03"],
          requires=OM_REQ + [("bar", "bar_wf(bar_event.bar)"),
@@ -407,6 +407,7 @@ contract(OM + "on_bar_event", props=P + ["C04", "C11", "C03"],
                             ("strategies", "forall(lambda p=Pair: implies(p in self._liquidity_strategies, liq_cfg(self._liquidity_strategies[p])))")],
          ensures=BAR_INV + [
              # C05/C08: every order of the pair that was open when the bar arrived has been processed: fill-or-kill orders are closed
+             ("matched", "same_object(self.last_bar, bar_event)"),
              ("fok_closed", "forall(lambda k=Id: implies((k in self._orders._items) and old(st_open(self._orders._items[k])) "
                             "and self._orders._items[k]._pair == bar_event.bar.pair and fok(self._orders._items[k]), not st_open(self._orders._items[k])))")],
          raises={"Error": []},
